@@ -145,10 +145,11 @@ Definition interp_fcn (linear : bool) (tsa : list Q) (ib : list Z) (tsb : list Q
    iamiss = np.where(ib < 0)[0]; ibmiss = setxor1d(arange(nb), ib[ib >= 0])
    dt = |fcn(tsa[iamiss]) - tsb[ibmiss][:, None]|;  dt[dt > tbin] = nan
    while not all nan: (_b,_a) = unravel(nanargmin(dt)); assign; blank row and column *)
+(* the predicted times are stored reduced (Qred x == x): same values, smaller numerators *)
 Fixpoint amiss (f : a2b) (tsa : list Q) (ib : list Z) (m : Z) : list (Z * Q) :=
   match tsa, ib with
   | a :: ra, j :: rj =>
-      if (j <? 0)%Z then (m, apply_a2b f a) :: amiss f ra rj (m + 1)%Z
+      if (j <? 0)%Z then (m, Qred (apply_a2b f a)) :: amiss f ra rj (m + 1)%Z
       else amiss f ra rj (m + 1)%Z
   | _, _ => []
   end.
